@@ -27,6 +27,7 @@ inductive Err where
   | valueError
   | keyError
   | assertionError
+  | indexError
   deriving Repr, DecidableEq
 
 /-! ## Numbers with NaN (`none`) -/
@@ -177,6 +178,13 @@ inductive TAtom where
   | parallel (m : List (Chan × TV))
   deriving Repr, DecidableEq
 
+/-- the constructors turn their mapping argument into a `frozendict`: order is irrelevant (kept sorted) -/
+def TAtom.norm : TAtom → TAtom
+  | .offset m => .offset (dnorm m)
+  | .scaling m => .scaling (dnorm m)
+  | .parallel m => .parallel (dnorm m)
+  | a => a
+
 /-- a single transformation or a (flat) `ChainedTransformation` -/
 inductive Trafo where
   | atom (a : TAtom)
@@ -244,13 +252,27 @@ def TAtom.okOn : TAtom → List Chan → Bool
     mat.all (fun row => row.length == ins.length)
   | _, _ => true
 
-def chainOkOn : List TAtom → List Chan → Bool
-  | [], _ => true
-  | a :: as, cs => a.okOn cs && chainOkOn as (a.outputChannels cs)
+/-- channels an atom adds to the data whichever channel was requested -/
+def TAtom.produced : TAtom → List Chan
+  | .linear _ _ outs => outs
+  | .parallel m => dkeys m
+  | _ => []
+
+/-- inside a chain a `LinearTransformation` must see all of its inputs or none: its inputs are not
+produced by an earlier member of the chain (`prod`), otherwise `__call__` raises `KeyError` when a
+forwarded channel is requested (open finding PF-27) -/
+def TAtom.insFresh : TAtom → List Chan → Bool
+  | .linear _ ins _, prod => (inter ins prod).isEmpty
+  | _, _ => true
+
+def chainOkOn : List TAtom → List Chan → List Chan → Bool
+  | [], _, _ => true
+  | a :: as, prod, cs =>
+    a.okOn cs && a.insFresh prod && chainOkOn as (prod ++ a.produced) (a.outputChannels cs)
 
 def Trafo.okOn : Trafo → List Chan → Bool
   | .atom a, cs => a.okOn cs
-  | .chain as, cs => chainOkOn as cs
+  | .chain as, cs => chainOkOn as [] cs
 
 /-- `LinearTransformation.__init__`: rows and columns are sorted by channel name -/
 def sortByKey {α} (ks : List Chan) (xs : List α) : List (Chan × α) :=
@@ -669,6 +691,10 @@ def reversedM : Wf → Wf
 def fromExpression (slope icpt dur : Rat) (ch : Chan) : Wf :=
   if slope = 0 then .const dur icpt ch else .func slope icpt dur ch
 
+/-- `TableWaveform(channel, waveform_table)` with a tuple: no validation, `waveform_table[-1]` must exist -/
+def mkTable (ch : Chan) (es : List Entry) : Except Err Wf :=
+  if es.isEmpty then .error .indexError else .ok (.table ch es)
+
 /-- `TableWaveform.from_table(channel, table)` -/
 def fromTable (ch : Chan) (raw : List Entry) : Except Err Wf :=
   match validateInput raw with
@@ -863,6 +889,7 @@ def errS : Err → Sexp
   | .valueError => .list [.atom "error", .atom "value_error"]
   | .keyError => .list [.atom "error", .atom "key_error"]
   | .assertionError => .list [.atom "error", .atom "assertion"]
+  | .indexError => .list [.atom "error", .atom "index_error"]
 
 def chan? : Sexp → Option Chan
   | .atom s => some s
@@ -1088,6 +1115,113 @@ def ctor (name : String) (args : List Sexp) (ts : List Rat) : Sexp :=
     | _, _ => bad
   | _, _ => Sexp.err "c08-unknown-constructor"
 
+/-- transformations in recipes: `(linear mat ins outs)` goes through `LinearTransformation.__init__`
+(sorting), `(chain t…)` through `chain_transformations`, `(chain-plain a…)` is `ChainedTransformation(*a)` -/
+partial def evalTrafo : Sexp → Except Sexp Trafo
+  | .list [.atom "linear", mat, ins, outs] =>
+    match listOf? (listOf? rat?) mat, chans? ins, chans? outs with
+    | some mat, some ins, some outs => match mkLinear mat ins outs with
+      | .error e => .error (errS e)
+      | .ok a => .ok (.atom a)
+    | _, _, _ => .error bad
+  | .list (.atom "chain" :: ts) => do
+    let ts ← ts.mapM evalTrafo
+    pure (chainTransformations ts)
+  | .list (.atom "chain-plain" :: ts) => do
+    let ts ← ts.mapM evalTrafo
+    let atoms ← ts.mapM (fun t => match t with
+      | .atom a => .ok a
+      | .chain _ => .error bad)
+    pure (.chain atoms)
+  | s => match Trafo.ofSexp s with
+    | some (.atom a) => .ok (.atom a.norm)
+    | some (.chain as) => .ok (.chain (as.map TAtom.norm))
+    | none => .error bad
+
+def liftE (r : Except Err Wf) : Except Sexp Wf :=
+  match r with
+  | .ok w => .ok w
+  | .error e => .error (errS e)
+
+/-- a recipe is the tree of constructor calls the harness performs on the real classes; children are
+built first, left to right -/
+partial def evalRecipe : Sexp → Except Sexp Wf
+  | .list [.atom "table", smart, ch, .list es] =>
+    match nat? smart, chan? ch, es.mapM Entry.ofSexp with
+    | some 0, some ch, some es => liftE (Wf.mkTable ch es)
+    | some _, some ch, some es => liftE (Wf.fromTable ch es)
+    | _, _, _ => .error bad
+  | .list [.atom "const", d, a, ch] =>
+    match rat? d, rat? a, chan? ch with
+    | some d, some a, some ch => .ok (.const d a ch)
+    | _, _, _ => .error bad
+  | .list [.atom "func", smart, s, i, d, ch] =>
+    match nat? smart, rat? s, rat? i, rat? d, chan? ch with
+    | some 0, some s, some i, some d, some ch => .ok (.func s i d ch)
+    | some _, some s, some i, some d, some ch => .ok (Wf.fromExpression s i d ch)
+    | _, _, _, _, _ => .error bad
+  | .list (.atom "seq" :: smart :: rs) => do
+    let ws ← rs.mapM evalRecipe
+    match nat? smart with
+    | some 0 => liftE (Wf.mkSeq ws)
+    | some _ => liftE (Wf.fromSequence ws)
+    | none => .error bad
+  | .list (.atom "multi" :: smart :: rs) => do
+    let ws ← rs.mapM evalRecipe
+    match nat? smart with
+    | some 0 => liftE (Wf.mkMulti ws)
+    | some _ => liftE (Wf.fromParallel ws)
+    | none => .error bad
+  | .list [.atom "rep", smart, r, n] => do
+    let b ← evalRecipe r
+    match nat? smart, int? n with
+    | some 0, some n => liftE (Wf.mkRep b n)
+    | some _, some n => liftE (Wf.fromRepetitionCount b n)
+    | _, _ => .error bad
+  | .list [.atom "trans", smart, r, tr] => do
+    let i ← evalRecipe r
+    let tr ← evalTrafo tr
+    match nat? smart with
+    | some 0 => liftE (Wf.mkTrans i tr)
+    | some _ => liftE (Wf.fromTransformation i tr)
+    | none => .error bad
+  | .list [.atom "arith", smart, l, op, r] => do
+    let l ← evalRecipe l
+    let r ← evalRecipe r
+    match nat? smart, ArithOp.ofSexp op with
+    | some 0, some op => liftE (Wf.mkArith l op r)
+    | some _, some op => liftE (Wf.fromOperator l op r)
+    | _, _ => .error bad
+  | .list [.atom "functor", smart, r, fs] => do
+    let i ← evalRecipe r
+    match nat? smart, fnMap? fs with
+    | some 0, some fs => liftE (Wf.mkFunctor i fs)
+    | some _, some fs => liftE (Wf.fromFunctor i fs)
+    | _, _ => .error bad
+  | .list [.atom "reversed", mode, r] => do
+    let i ← evalRecipe r
+    match nat? mode with
+    | some 0 => .ok (.reversed i)
+    | some 1 => .ok (Wf.fromToReverse i)
+    | some _ => .ok (Wf.reversedM i)
+    | none => .error bad
+  | .list [.atom "subset", mode, r, cs] => do
+    let i ← evalRecipe r
+    match nat? mode, chans? cs with
+    | some 0, some cs => .ok (.subset i (sortChans cs))
+    | some 1, some cs => liftE (Wf.getSubset i cs)
+    | some _, some cs => liftE (Wf.unsafeSubset i cs)
+    | _, _ => .error bad
+  | .list [.atom "mapping", d, m] =>
+    match rat? d, dict? m with
+    | some d, some m => liftE (Wf.fromMapping d (dnorm m))
+    | _, _ => .error bad
+  | .list [.atom "lit", w] =>
+    match Wf.ofSexp w with
+    | some w => .ok w
+    | none => .error bad
+  | _ => .error bad
+
 def handle : List Sexp → Sexp
   | [.atom "obs", w, ts] =>
     match Wf.ofSexp w, rats? ts with
@@ -1116,9 +1250,15 @@ def handle : List Sexp → Sexp
     match ts.mapM Trafo.ofSexp with
     | some ts => .list [.atom "ok", (chainTransformations ts).toSexp]
     | none => bad
+  | [.atom "case", r, ts] =>
+    match rats? ts with
+    | some ts => match evalRecipe r with
+      | .ok w => .list (.atom "ok" :: w.toSexp :: obs w ts)
+      | .error e => e
+    | none => bad
   | [.atom "eq", a, b] =>
-    match Wf.ofSexp a, Wf.ofSexp b with
-    | some a, some b => ofBool (Wf.eqv a b)
+    match evalRecipe a, evalRecipe b with
+    | .ok a, .ok b => ofBool (Wf.eqv a b)
     | _, _ => bad
   | [.atom "judge-const", c, vs] =>
     match rat? c, vals? vs with
